@@ -354,6 +354,27 @@ HOP_HANDMADE = ['[H]NC', 'C([H])C(=O)O', '[H]C([H])([H])[H]', '[2H]C([H])O', '[H
                 '[H][Al]([H])[H]', '[H][P]([H])[H] |^1:1|', '[H]N=C=O', '[H]OCl(=O)(=O)=O', '[H]C(=O)[O-]', '[H][C-]([H])[H]', '[H][O+]([H])[H]']
 
 
+def renumbered(rng, mol, how=None):
+    """the same molecule (marks carried over) under another numbering: `shift` = every number + k (so the numbers right after
+    len(atoms) are taken), `drop` = the lowest number moved beyond the highest (what delete_atom / substructure leave behind),
+    `gap` = random numbers from a range three times the size, in random dict order (atom-mapped input)."""
+    how = how or rng.choice(['shift', 'drop', 'gap', 'gap'])
+    if how == 'gap':
+        return molgen.renumber(rng, mol)[0], how
+    c = mol.copy()
+    ids = list(c._atoms)
+    if how == 'shift':
+        k = rng.choice([1, 1, 2, 3])
+        c.remap({n: n + k for n in ids})
+    else:
+        lo, hi = min(ids), max(ids)
+        c.remap({lo: hi + rng.choice([1, 1, 2])})
+    c._changed = None
+    c._backup = None
+    c.calc_labels()
+    return c, how
+
+
 def hop_molecules(ctx):
     rng = ctx.rng
     base = []
@@ -377,7 +398,20 @@ def hop_molecules(ctx):
                 out.append((f'{name}/mixed{j}', make_mixed(rng, m)))
             except Exception as e:
                 ctx.dist('hops/make_mixed-raised:' + type(e).__name__)
-    return out
+    # the same molecules under numberings with gaps / shifted / permuted (atom-mapped input, what is left after delete_atom or
+    # substructure): operations that allocate new atom numbers or walk the atom dict must not depend on numbers being 1..N
+    variants = []
+    for i, (name, m) in enumerate(out):
+        hows = ['shift', 'drop', 'gap'] if i < len(HOP_HANDMADE) else [None] if i % 2 == 0 or not ctx.quick else []
+        for how in hows:
+            try:
+                v, how = renumbered(rng, m, how)
+            except Exception as e:
+                ctx.dist('hops/renumbered-raised:' + type(e).__name__)
+                continue
+            variants.append((f'{name}/renum-{how}', v))
+            ctx.dist(f'hops/numbering/{how}')
+    return out + variants
 
 
 def apply_real(op, mol):
@@ -474,7 +508,12 @@ CALL_VARIANTS = [
     ('remove_coordinate_bonds', {}), ('remove_coordinate_bonds', {'keep_to_terminal': False}), ('remove_metals', {}),
     ('kekule', {}), ('thiele', {}), ('thiele', {'fix_tautomers': False}), ('clean_isotopes', {}),
     ('implicify_hydrogens', {}), ('explicify_hydrogens', {}), ('fix_structure', {}),
+    ('explicify_hydrogens', {'start_map': ['max', 1]}), ('explicify_hydrogens', {'start_map': ['max', 4]}),
 ]
+# operations that write hydrogen counts or allocate atoms: each is run after a cut and on renumbered molecules
+H_WRITERS = [('explicify_hydrogens', {}), ('implicify_hydrogens', {}), ('explicify_hydrogens', {'start_map': ['max', 2]}),
+             ('canonicalize', {}), ('standardize', {}), ('kekule', {}), ('thiele', {}), ('neutralize', {}), ('fix_structure', {}),
+             ('standardize_charges', {}), ('remove_coordinate_bonds', {})]
 METALS = ['Cu', 'Pd', 'Zn', 'Fe', 'Na', 'Pt', 'Mg']
 
 
@@ -573,7 +612,10 @@ def apply_history(src, ops):
                     m.union(other, remap=True, copy=False)
                 nxt.append(m)
             elif k == 'call':
-                getattr(m, op[1])(**op[2])
+                kw = dict(op[2])
+                if isinstance(kw.get('start_map'), list):   # ['max', k]: the first number given to a new atom, relative to the numbers in use
+                    kw['start_map'] = max(m._atoms) + kw['start_map'][1]
+                getattr(m, op[1])(**kw)
                 nxt.append(m)
             elif k == 'substructure':
                 nxt.append(m.substructure([x for x in op[1] if x in have]))
@@ -746,6 +788,43 @@ def cations(rng, mol):
     return m
 
 
+def rule_instances(ctx):
+    """(name, molecule) for every rule of the three standardize tables (single / double / metal-organic): molecules the rule's own
+    pattern matches, drawn from the live rule tables (pattern records of gen_rules, instantiation shared with C14's generator)."""
+    from ..gen import gen_rules
+    from . import c14 as _c14
+    std = gen_rules.tables()[0]
+    from chython.algorithms.standardize._groups import single_rules, double_rules
+    from chython.algorithms.standardize._metal_organics import rules as metal_rules
+    live = {'single': single_rules, 'double': double_rules, 'metal': metal_rules}
+    rng = ctx.rng
+    per_rule = 1 if ctx.quick else 3
+    out, missing = [], []
+    for tname, recs in std.items():
+        for idx, rec in enumerate(recs):
+            got = 0
+            for attempt in range(per_rule * 12):
+                try:
+                    inst = _c14.instantiate(rec, rng)
+                    if inst is None:
+                        continue
+                    mol = _c14.build(inst[0], inst[1])
+                    ok = next(live[tname][idx][0].get_mapping(mol, automorphism_filter=False), None) is not None
+                except Exception:
+                    continue
+                if ok:
+                    out.append((f'rule:{tname}[{idx}]#{got}', mol))
+                    got += 1
+                    if got >= per_rule:
+                        break
+            if not got:
+                missing.append(f'{tname}[{idx}]')
+    ctx.dist('history/rules-without-instance', len(missing))
+    if missing:
+        ctx.notes.append(f'standardize rules without a generated instance: {missing[:20]}')
+    return out
+
+
 def history_cases(ctx):
     """(name, source molecule, ops) triples"""
     rng = ctx.rng
@@ -774,7 +853,55 @@ def history_cases(ctx):
                 if d is not None:
                     derived.append((f'{name}/{tag}', d))
     pool += derived
+    # numbering: the same molecules with gaps / shifted / permuted numbers (atom-mapped input, leftovers of delete_atom or
+    # substructure); every history family below runs on them too
+    renum = []
+    for name, m in pool:
+        if len(m) >= 2 and rng.random() < (0.35 if q else 0.6):
+            try:
+                v, how = renumbered(rng, m)
+            except Exception:
+                continue
+            renum.append((f'{name}/renum-{how}', v))
+    pool += renum
+    ctx.dist('history/renumbered-sources', len(renum))
     cases = []
+    # H-writing operations on the renumbered sources and after a cut (the result of delete_atom / substructure / split / `-`
+    # has numbering gaps and cut atoms whose counts were just recalculated)
+    for name, m in renum:
+        for meth, kw in H_WRITERS[:3]:
+            cases.append((name, m, [['call', meth, kw]]))
+    for name, m in pool:
+        if len(m) < 3:
+            continue
+        for _ in range(1 if q else 2):
+            ids = list(m._atoms)
+            cut = rng.choice(['delete-low', 'delete', 'substructure', 'sub', 'split'])
+            if cut == 'delete-low':
+                first = [['edits', [['delete_atom', min(ids)]]]]
+            elif cut == 'delete':
+                first = [['edits', [['delete_atom', rng.choice(ids)]]]]
+            elif cut == 'split':
+                first = [['edits', [['delete_atom', rng.choice(ids)]]], ['split']]
+            else:
+                first = [[cut, random_subset(rng, m)]]
+            meth, kw = rng.choice(H_WRITERS[:3]) if rng.random() < 0.5 else rng.choice(H_WRITERS)
+            cases.append((name, m, first + [['call', meth, kw]]))
+    # every standardize rule on a molecule drawn from its own pattern (groups, tautomers, covalently drawn donor-acceptor and
+    # metal-organic bonds): the rule rewrites charges / bond orders (covalent <-> coordinate) and recounts the touched atoms
+    insts = rule_instances(ctx)
+    for name, m in insts:
+        cases.append((name, m, [['call', 'standardize', {}]]))
+        meth, kw = rng.choice([('canonicalize', {}), ('standardize', {'fix_tautomers': False}), ('canonicalize', {'keep_kekule': True}),
+                               ('standardize', {'logging': True})])
+        cases.append((name, m, [['call', meth, kw]]))
+        if rng.random() < 0.3:
+            try:
+                v, how = renumbered(rng, m)
+                cases.append((f'{name}/renum-{how}', v, [['call', 'standardize', {}]]))
+            except Exception:
+                pass
+    ctx.dist('history/rule-instances', len(insts))
     # charged heteroaromatics (ring nitrogen quaternised / protonated, charge possibly not on the canonical atom): every option
     # combination of the standardisation entry points, because the rarely used paths restore / move bond orders and charges
     charged = [(n, m) for n, m in pool if n.endswith('/cation') or (any(a._charge for a in m._atoms.values()) and len(pool) and n in _HANDMADE_NAMES)]
